@@ -65,11 +65,12 @@ Print Assumptions C02_shared_triple_survives.
 
 (* a read restricted to a graph (4th component or context=; identifier,
    same-store Graph object or Graph object of another store, which merely names
-   the graph) answers from that graph and from nothing else,
-   whatever the state - in particular nothing for an empty or unknown graph.
-   With default_union the default graph IS the merged view, hence the side
-   condition. *)
-Theorem C02_no_fallback : forall d p ca kw du g,
+   the graph) answers from that graph and from nothing else, whatever the state
+   - in particular nothing for an empty or unknown graph.
+   PARTIAL: the hypothesis [du = false \/ g <> 0] is not a trigger of the case but
+   the region of finding F20: under default_union a read that NAMES the default
+   graph is answered from the merged view (C02_default_union_alias_refuted). *)
+Theorem C02_no_fallback_partial : forall d p ca kw du g,
   eff_graph ca kw = Some g -> (du = false \/ g <> 0) ->
   (forall t, In t (snd (cg_triples d p ca kw du)) <-> holds d g t /\ matches p t = true)
   /\ ((forall t, ~ holds d g t) -> snd (cg_triples d p ca kw du) = []).
@@ -78,14 +79,32 @@ Proof.
   - now apply no_fallback.
   - now apply no_fallback_empty.
 Qed.
-Print Assumptions C02_no_fallback.
+Print Assumptions C02_no_fallback_partial.
 
-(* quad membership: (t, g) in ds  iff  t is in graph g *)
-Theorem C02_contains_exact : forall d t a du,
+(* quad membership: (t, g) in ds  iff  t is in graph g - same region *)
+Theorem C02_contains_exact_partial : forall d t a du,
   (du = false \/ arg_name a <> 0) ->
   (snd (cg_contains d (pat_of t) (CQuad (Some a)) du) = true <-> holds d (arg_name a) t).
 Proof. exact contains_exact. Qed.
-Print Assumptions C02_contains_exact.
+Print Assumptions C02_contains_exact_partial.
+
+(* F20 (open): with default_union=True the views DISAGREE about the default
+   graph: it is empty (quads((..,default)) = [], len(Graph(store, default)) = 0,
+   no quad (t', default)), yet (t, default) in ds is True and
+   triples(context=default) yields t, which lives in graph 1 only - a read
+   restricted to an empty graph falling back to another graph. *)
+Theorem C02_default_union_alias_refuted :
+  exists d t, (forall t', ~ holds d 0 t')
+    /\ snd (cg_contains d (pat_of t) (CQuad (Some (GId 0))) true) = true
+    /\ snd (cg_triples d pall CTriple (Some (GView 0)) true) = [t]
+    /\ snd (cg_quads d pall (CQuad (Some (GId 0)))) = [] /\ view_len d 0 = 0.
+Proof. exact default_union_alias_refuted. Qed.
+Print Assumptions C02_default_union_alias_refuted.
+
+Theorem C02_alias_case_refuted :
+  exists c, kf c = 2 /\ spec_ok c (model_obs c) = false /\ spec_ok_w c (model_obs c) = true.
+Proof. exact alias_case_refuted. Qed.
+Print Assumptions C02_alias_case_refuted.
 
 (* ---- round 3: reads and return values that were only run before ---- *)
 
@@ -137,22 +156,27 @@ Print Assumptions C02_hist_context_or_c_refuted.
 
 (* ---- all views describe the same mapping, over every history ---- *)
 
-(* After every operation of every history, outside the one
-   known-finding region (kf c = 0: no restricted quads() is asked while a
-   matching triple is shared with another graph - F17), each read's
-   answer and the whole snapshot (quads(), graphs(), every Graph(store, name)
-   view and its len, len(ds), the default_union view, the default graph, the
-   quad membership matrix) are duplicate-free enumerations of the images of ONE
-   mapping graph name -> triple set with its set of known names, evolved by
-   the specification's set operations.  This is the checker the correspondence
-   run evaluates on rdflib's answers. *)
+(* FULL STRENGTH, every history, no trigger hypothesis: after every operation the
+   whole snapshot (quads(), graphs(), every Graph(store, name) view and its len,
+   len(ds), the default_union view, the default graph, the quad membership
+   matrix) and every operation's own answer are duplicate-free enumerations of
+   the images of ONE mapping graph name -> triple set with its set of known
+   names, evolved by the specification's set operations - with ONLY the answers
+   of the known-finding STEPS exempt ([waived]: a restricted quads() that leaks,
+   F17; a default_union read naming the default graph, F20).  The rest of such
+   a history stays judged. *)
+Theorem C02_views_agree_stepwise : forall c, spec_ok_w c (model_obs c) = true.
+Proof. exact spec_ok_w_model. Qed.
+Print Assumptions C02_views_agree_stepwise.
+
+(* the strict checker - the one the correspondence run evaluates on rdflib's
+   answers - is satisfied outside the two trigger regions *)
 Theorem C02_views_agree_partial : forall c, kf c = 0 -> spec_ok c (model_obs c) = true.
 Proof. exact spec_ok_model. Qed.
 Print Assumptions C02_views_agree_partial.
 
-(* the same from any related pair of states, any front-end kind *)
 Theorem C02_views_agree_from_partial : forall c ops d sp,
-  R d sp -> is_ds d = c_ds c -> leak_run sp ops = false ->
+  R d sp -> is_ds d = c_ds c -> trig_run waived sp ops = false ->
   spec_run c sp ops (run c d ops) = true.
 Proof. exact spec_run_model. Qed.
 Print Assumptions C02_views_agree_from_partial.
@@ -196,9 +220,21 @@ Theorem C02_snapshot_reading : forall c sp s,
 Proof. exact snap_ok_reading. Qed.
 Print Assumptions C02_snapshot_reading.
 
-Theorem C02_trigger_reading : forall c, kf c = 0 <-> leak_run sp_init (c_ops c) = false.
+Theorem C02_trigger_reading : forall c, kf c = 0 <-> trig_run waived sp_init (c_ops c) = false.
 Proof. exact kf_zero. Qed.
 Print Assumptions C02_trigger_reading.
+
+Theorem C02_result_reading : forall b sp,
+  (forall p ca kw du l, res_ok b sp (OTriples p ca kw du) (RTriples l) = true <->
+     NoDup l /\ forall t, In t l <-> In t (sp_triples sp p (eff_graph ca kw) du))
+  /\ (forall p ca l, res_ok b sp (OQuads p ca) (RQuads l) = true <->
+     NoDup l /\ forall q, In q l <-> In q (sq sp) /\ qsel p (eff_graph ca None) q = true)
+  /\ (forall p ca du x, res_ok b sp (OContains p ca du) (RBool x) = true <->
+     (x = true <-> sp_triples sp p (eff_graph ca None) du <> []))
+  /\ (forall t l, res_ok b sp (OContexts t) (RNames l) = true <->
+     NoDup l /\ forall g, In g l <-> (In (t, g) (sq sp) \/ (b = true /\ g = 0))).
+Proof. exact res_ok_reading. Qed.
+Print Assumptions C02_result_reading.
 
 (* the specification machine itself: an add moves one graph, remove_graph
    empties one graph, the default graph never leaves the known set *)
@@ -231,7 +267,7 @@ Example C02_nonvacuous :
                         ORemove pall (CQuad (Some (GForeign 1 [(7, 3, 7)])));
                         OContexts (9, 3, 9)] |} in
   kf c = 0 /\ length (model_obs c) = 13%nat
-  /\ exists s, nth_error (model_obs c) 3 = Some (RNames [2], s) /\ o_graphs s = [1; 0; 3; 2]
+  /\ exists s, nth_error (model_obs c) 3 = Some (RNames [2], s) /\ o_graphs s = [1; 3; 2; 0]
                /\ o_views s = [(0, []); (1, [(1, 3, 5)]); (3, [(1, 3, 5); (2, 3, 1)]); (2, [])].
 Proof.
   cbv zeta. split; [vm_compute; reflexivity|]. split; [vm_compute; reflexivity|].
